@@ -259,7 +259,10 @@ func parseRevokedCertificateList(issuer *pkix.RDNSequence, reader hashing.Hashin
 	if err != nil {
 		return err
 	}
-	for {
+	//the list ends after the number of bytes it declares, what follows is not necessarily distinguishable by its tag
+	//(without crlExtensions the next element is the signatureAlgorithm which is a SEQUENCE too)
+	remainingListBytes := revokedCertListTag.CalculateValueLength()
+	for remainingListBytes.Sign() > 0 {
 		revokedCertSeq, err := asn1parser.PeekTagLength(&reader, 0)
 		if err != nil {
 			return err
@@ -268,6 +271,7 @@ func parseRevokedCertificateList(issuer *pkix.RDNSequence, reader hashing.Hashin
 		if revokedCertSeq.Tag != asn1crypto.SEQUENCE {
 			break
 		}
+		remainingListBytes.Sub(remainingListBytes, revokedCertSeq.CalculateTLVLength())
 		revokedCert := new(pkix.RevokedCertificate)
 		err = asn1parser.ReadStruct(&reader, revokedCert)
 		if err != nil {
@@ -289,7 +293,20 @@ func revokedCertificateListExists(reader hashing.HashingReaderWrapper) bool {
 	if err != nil {
 		return false
 	}
-	return length.Tag == asn1crypto.SEQUENCE
+	if length.Tag != asn1crypto.SEQUENCE {
+		return false
+	}
+	if length.Length.Length.Sign() == 0 {
+		//empty list
+		return true
+	}
+	//if there are neither revoked certificates nor crlExtensions the next element is the signatureAlgorithm
+	//which is a SEQUENCE too, but it starts with an OBJECT IDENTIFIER whereas the list starts with a SEQUENCE
+	firstElementTag, err := asn1parser.PeekTag(&reader, int(length.CalculateTLLength().Int64()))
+	if err != nil {
+		return false
+	}
+	return *firstElementTag == asn1crypto.SEQUENCE
 }
 
 func findAlgorithmIdentifierInCRL(file *os.File) (*pkix.AlgorithmIdentifier, error) {
